@@ -439,7 +439,8 @@ _PATHS = {}
 def source_file(name, src):
     if name not in _PATHS:
         if not _SCRATCH:
-            d = tempfile.mkdtemp(prefix='c18-files-')
+            _w = os.path.join(os.environ.get('VERIF_HOME') or tempfile.gettempdir(), '.work')
+            d = tempfile.mkdtemp(prefix='c18-files-', dir=_w if os.path.isdir(_w) else None)
             _SCRATCH.append(d)
             atexit.register(shutil.rmtree, d, True)
         path = os.path.join(_SCRATCH[0], name + '.dtml')
